@@ -203,6 +203,13 @@ impl EventLoop {
         // let await_acks = self.state.await_acks;
         let inflight_full = self.state.inflight >= self.mqtt_options.inflight;
         let collision = self.state.collision.is_some();
+        // Retransmissions of the previous connection (they carry their packet id) go out
+        // whatever the window says: it was emptied when the connection failed. Requests that
+        // were merely carried over from the channel are new work and obey flow control.
+        let replay = matches!(
+            self.pending.front(),
+            Some(Request::Publish(publish)) if publish.pkid != 0
+        ) || matches!(self.pending.front(), Some(Request::PubRel(_)));
         let network_timeout = Duration::from_secs(self.network_options.connection_timeout());
 
         // Read buffered events from previous polls before calling a new poll
@@ -256,7 +263,7 @@ impl EventLoop {
                 &mut self.pending,
                 &self.requests_rx,
                 self.mqtt_options.pending_throttle
-            ), if !self.pending.is_empty() || (!inflight_full && !collision) => match o {
+            ), if replay || (!inflight_full && !collision) => match o {
                 Ok(request) => {
                     if let Some(outgoing) = self.state.handle_outgoing_packet(request)? {
                         network.write(outgoing).await?;
